@@ -474,10 +474,11 @@ class C20(Scenario):
     rule = ("OS = Windows | macOS by run index; histories of C01 without replace-renames (create/write/chmod/unlink/mkdir/makedirs/rmdir/rmtree/rename/move out/move in of files and trees/remove "
             "root) executed on a real scratch tree and rendered into native batches by the documented-semantics renderers (Windows: one FILE_NOTIFY_INFORMATION record per change, OLD_NAME/"
             "NEW_NAME adjacent, subtree flag, buffer cuts at seeded record counts; FSEvents: per-(item,path) records with flags OR-ed within a latency window, rename = two ItemRenamed records "
-            "with one inode); 70% paced; distinct = distinct (OS, history, cuts, interleaving); non-trivial = a buffer cut or flag coalescing happened, or a pre-emption was taken")
+            "with one inode); 70% paced; 10% of the runs use names that begin with U+FEFF / U+FFFE; distinct = distinct (OS, history, cuts, interleaving); non-trivial = a buffer cut or flag coalescing happened, or a pre-emption was taken")
     level_text = ("Translation layers judged against fake OS peers: replay of the normalised stream equals the final tree; a paced rename inside a recursive watch yields one moved event with both "
                   "paths plus one synthetic moved event per descendant; move in -> created (+ synthetic created per descendant), move out -> deleted; a non-recursive FSEvents watch reports nothing "
-                  "below the root's direct children; every Windows buffer is decoded by the real _parse_event_buffer into exactly the records that were encoded.")
+                  "below the root's direct children; on paced and grouped recursive runs every primary moved event names a source the stream has accounted for (a source that arrived by a move-in of the "
+                  "same history excepted); every Windows buffer is decoded by the real _parse_event_buffer into exactly the records that were encoded.")
     level_note = ("TRUST BASE: the renderers are a reading of the vendor documentation and of the comment block in fsevents.py; not validated against Windows or macOS. A violation here is first a "
                   "possible renderer error. The raw inotify decoder rides along in every FS-world run; the exhaustive decoder half of the statement (all encodable record sequences) is a pure "
                   "function and not separately decided.")
